@@ -1,6 +1,7 @@
 import PhyModel.Proofs.ConcDensity
 import PhyModel.Proofs.ConcModel
 import PhyModel.Proofs.ConcGibbs
+import PhyModel.Proofs.ConcGibbsMeasure
 /-! # C13 — the concentration update is an exact Gibbs step for the CRP concentration
 
 Property theorems only; helper lemmas live in `Proofs/ConcDensity.lean` (real analysis, Mathlib's
@@ -291,6 +292,60 @@ theorem conc_gibbs (a b : ℝ) (K n : ℕ) (ha : 0 < a) (hb : 0 < b) (hK : 1 ≤
       exact ⟨D, ae_restrict_of_forall_mem measurableSet_Ioi fun x hx => hD x hx⟩
   · -- the η-marginal is Γ(n) · target (`eta_marginal`)
     exact ae_restrict_of_forall_mem measurableSet_Ioi fun x hx => eta_marginal a b x K n hx hn
+
+/-- the measure on `ℝ` with density `target a b K n` w.r.t. Lebesgue measure on `(0, ∞)`: the
+(unnormalised) conditional posterior of the concentration given `K` clones and `n` data points -/
+noncomputable def posteriorMeasure (a b : ℝ) (K n : ℕ) : Measure ℝ :=
+  (volume.restrict (Ioi (0 : ℝ))).withDensity fun x => ENNReal.ofReal (target a b K n x)
+
+/-- the law of the second draw given `η`:
+`w(η) Gamma(a+K, b - log η) + (1 - w(η)) Gamma(a+K-1, b - log η)` (Mathlib's `gammaMeasure`) -/
+noncomputable def mixtureMeasure (a b : ℝ) (K n : ℕ) (η : ℝ) : Measure ℝ :=
+  ENNReal.ofReal (weight a b K n η) • gammaMeasure (a + K) (b - log η)
+    + ENNReal.ofReal (1 - weight a b K n η) • gammaMeasure (a + K - 1) (b - log η)
+
+/-- **C13, measure form.**  With Mathlib's `betaMeasure`, `gammaMeasure`: starting from
+`x ~ posteriorMeasure`, drawing `η ~ Beta(x+1, n)` and then `x' ~ mixtureMeasure η` gives
+`x' ~ posteriorMeasure`: the expectation of every measurable `f ≥ 0` of `x'` is `∫ f d posterior`. -/
+theorem conc_gibbs_measure (a b : ℝ) (K n : ℕ) (ha : 0 < a) (hb : 0 < b) (hK : 1 ≤ K) (hn : 1 ≤ n)
+    (f : ℝ → ENNReal) (hf : Measurable f) :
+    ∫⁻ x, ∫⁻ η, ∫⁻ x', f x' ∂mixtureMeasure a b K n η ∂betaMeasure (x + 1) n
+        ∂posteriorMeasure a b K n
+      = ∫⁻ x, f x ∂posteriorMeasure a b K n := by
+  have hK' : (1 : ℝ) ≤ K := by exact_mod_cast hK
+  have hn' : (0 : ℝ) < n := by exact_mod_cast hn
+  have hG : 0 < Gamma n := Gamma_pos_of_pos hn'
+  have hT : AEMeasurable (fun x => ENNReal.ofReal (target a b K n x))
+      (volume.restrict (Ioi (0 : ℝ))) :=
+    (aemeasurable_of_eq_integral (measurable_jointR a b K n) (volume.restrict (Ioo (0 : ℝ) 1))
+      measurableSet_Ioi (Gamma n) _ (fun x hx => eta_marginal a b x K n hx hn)
+      hG.ne').ennreal_ofReal
+  have hfin : ∀ᵐ x ∂volume.restrict (Ioi (0 : ℝ)), ENNReal.ofReal (target a b K n x) < ⊤ :=
+    ae_of_all _ fun _ => ENNReal.ofReal_lt_top
+  unfold posteriorMeasure
+  rw [lintegral_withDensity_eq_lintegral_mul_non_measurable₀ _ hT hfin,
+    lintegral_withDensity_eq_lintegral_mul_non_measurable₀ _ hT hfin]
+  simp only [Pi.mul_apply]
+  rw [← conc_gibbs a b K n ha hb hK hn f hf]
+  refine lintegral_congr fun x => ?_
+  congr 1
+  rw [lintegral_betaMeasure]
+  refine setLIntegral_congr_fun measurableSet_Ioo fun η hη => ?_
+  obtain ⟨hw0, hw1⟩ := wR_mem ha hb hK' hn' hη.1 hη.2
+  have hr : 0 < b - log η := by linarith [log_neg hη.1 hη.2]
+  show _ * _ = _ * _
+  congr 1
+  exact lintegral_gammaMixture hw0 hw1 (by linarith) (by linarith) hr f hf
+
+/-- **C13, set form.**  `∫ P(x' ∈ A | x) d posterior(x) = posterior(A)` for every measurable `A`:
+`posteriorMeasure` is invariant under the update's transition kernel
+`x ↦ ∫ mixtureMeasure η dBeta(x+1, n)(η)`. -/
+theorem conc_gibbs_set (a b : ℝ) (K n : ℕ) (ha : 0 < a) (hb : 0 < b) (hK : 1 ≤ K) (hn : 1 ≤ n)
+    (A : Set ℝ) (hA : MeasurableSet A) :
+    ∫⁻ x, ∫⁻ η, mixtureMeasure a b K n η A ∂betaMeasure (x + 1) n ∂posteriorMeasure a b K n
+      = posteriorMeasure a b K n A := by
+  have := conc_gibbs_measure a b K n ha hb hK hn (A.indicator 1) (measurable_one.indicator hA)
+  simpa only [lintegral_indicator_one hA] using this
 
 /-! ## Non-vacuity: the hypotheses are satisfiable on concrete non-trivial inputs -/
 
